@@ -714,12 +714,40 @@ def _flat(l):
     return out
 
 
+def sugar_findings(ctx):
+    """F-12e / F-12f on the implementation (closed Coq witnesses: Props/C12.v C12_sugar_mul_chain_refuted,
+    C12_sugar_and_assoc_flat_refuted, C12_sugar_mul_zero_refuted)"""
+    import pyparsing as pp
+
+    def run(e, s):
+        try:
+            return e.parse_string(s).as_list()
+        except pp.ParseBaseException as x:
+            return (type(x).__name__, x.loc)
+    x, y = pp.Literal("x").set_whitespace_chars(""), pp.Literal("y").set_whitespace_chars("")
+    e = (x | y) + "z"
+    a3, c3, a2 = run(e * 3, "xz xz xz"), run(e + e + e, "xz xz xz"), run(e * 2, "xz xz")
+    ctx.case("sugar-finding:mul-vs-chain", True, True)
+    if a3 != c3 or (isinstance(a3, list)) != (isinstance(a2, list)):
+        ctx.violation("sugar:splice-not-neutral:mul-vs-chain",
+                      "e = (x | y) + 'z' with x, y Literals whose whitespace set is empty: (e*3) on 'xz xz xz' gives %r, (e+e+e) gives %r, (e*2) on 'xz xz' gives %r" % (a3, c3, a2),
+                      {"kind": "sugar-finding"})
+    a = pp.Literal("a")
+    z0, z1, z2 = run(a * 0, ""), run("b" + a * 0, "b"), run(pp.Opt(a * 0), "")
+    ctx.case("sugar-finding:mul-zero", True, True)
+    if not isinstance(z0, list):
+        ctx.violation("sugar:mul-zero-never-matches-alone",
+                      "(Literal('a') * 0).parse_string('') gives %r although the 0-fold sequence matches the empty string ('b' + a*0 gives %r, Opt(a*0) gives %r)" % (z0, z1, z2),
+                      {"kind": "sugar-finding"})
+
+
 def correspond(ctx):
     corr.ensure_driver()
     rng = ctx.rng
     copy_checks(ctx)
     composite_copy_checks(ctx)
     compose_before_after_use(ctx)
+    sugar_findings(ctx)
     sugar_checks(ctx)
     sugar_elab_checks(ctx)
     sugar_witness_checks(ctx)
@@ -763,6 +791,11 @@ def replay(ctx, obj):
     r = obj["replay"]
     c2 = vlib.Ctx(PROP, "quick", 0)
     c2.known = {}
+    if r.get("kind") == "sugar-finding":
+        sugar_findings(c2)
+        for v in c2.violations:
+            print(v["what"])
+        return not c2.violations
     if r.get("kind") == "compose-before-after":
         compose_before_after_use(c2)
         for v in c2.violations:
